@@ -587,7 +587,44 @@ def r14(ctx):
         raise AnalysisBroken('C18.R14: only %d kind tests found in stringhelper.cpp' % n)
 
 
+def r17(ctx):
+    ctx.rule('C18.R17', 'a command line is executed when the client finished it: RequestImpl::add reports a request as complete '
+             '(returns true) only on the path on which the line terminator was found in the accumulated text, or - the idle '
+             'wake-up of a listening client - when nothing at all is pending (m_request empty); every other return is false. '
+             'With "nothing arrived in this call" instead of "nothing pending" a wake-up between two TCP chunks executes the '
+             'first half of a line as a command of its own', minimum=2)
+    fb = ctx.fb
+    fn = fb.fn('ebusd::RequestImpl::add')
+    ctx.touch(fn)
+    finds = [(nid, d) for nid, d, rhs, op, lhs in fn.assignments() if rhs is not None and d and
+             (fn.nodes[fn.strip(rhs, casts=True)].get('callee') or '').split('::')[-1] == 'find' and
+             'm_request' in fn.key(rhs)]
+    if not finds:
+        raise AnalysisBroken('C18.R17: the search for the line terminator in RequestImpl::add was not recognised')
+    pn = finds[0][1].split(':')[-1]
+    n = 0
+    for r in fn.all('ReturnStmt'):
+        val = fn.nodes[r].get('val')
+        if val is None:
+            continue
+        n += 1
+        if fn.val(val) == 0 and fn.nodes[fn.strip(val, casts=True)].get('k') != 'DeclRefExpr':
+            ctx.ob('C18.R17', fn, r, True, 'return false', 'not complete')
+            continue
+        found = fn.needs_one_of(r, [('(%s == #18446744073709551615)' % pn, False)])
+        if found:
+            ctx.ob('C18.R17', fn, r, True, 'return behind the found terminator', 'complete line')
+            continue
+        dnf = facts.implied(fn, val, True)
+        empty = ('(this.m_request.length() == #0)', 'this.m_request.empty()', '(this.m_request.size() == #0)')
+        ok = bool(dnf) and all(any(facts.atom_key(fn, a)[0] in empty and facts.atom_key(fn, a)[1] for a in conj) for conj in dnf)
+        ctx.ob('C18.R17', fn, r, ok, 'return without a terminator', 'true only when nothing is pending (m_request empty): %s (%s)' % (ok, fn.key(val)[:90]))
+    if n < 2:
+        raise AnalysisBroken('C18.R17: returns of RequestImpl::add not recognised')
+
+
 def run(ctx):
+    r17(ctx)
     r14(ctx)
     r13(ctx)
     r12(ctx)
